@@ -412,9 +412,44 @@ func (s *state) socketSweep() {
 				}
 			}
 		}
+		// 3b. a burst of inbound connections lands right at Close: connections the shared listener has
+		// identified (their scope is open) but no transport has accepted yet must be closed and released too
+		var burst []net.Conn
+		var bmu sync.Mutex
+		var bwg sync.WaitGroup
+		for _, a := range A.h.Addrs() {
+			if p, err := a.ValueForProtocol(ma.P_TCP); err == nil && !dead {
+				for i := 0; i < 160; i++ {
+					bwg.Add(1)
+					go func(i int) {
+						defer bwg.Done()
+						c, err := net.DialTimeout("tcp", "127.0.0.1:"+p, 5*time.Second)
+						if err != nil {
+							return
+						}
+						switch i % 3 {
+						case 0:
+							c.Write([]byte("\x13/multistream/1.0.0\n"))
+						case 1:
+							c.Write([]byte("GET / HTTP/1.1\r\n"))
+						}
+						bmu.Lock()
+						burst = append(burst, c)
+						bmu.Unlock()
+					}(i)
+				}
+				break
+			}
+		}
+		time.Sleep(3 * time.Millisecond)
 		// 4. Close: "usage in every scope is zero and all of its listeners, connections and streams are gone"
 		B.h.Close()
 		A.h.Close()
+		bwg.Wait()
+		s.r.Count("socket_burst_conns_at_close", len(burst))
+		for _, c := range burst {
+			c.Close()
+		}
 		if !dead {
 			audit("after-host-close", map[string]any{})
 		}
